@@ -316,6 +316,8 @@ def _splice(raw, bi, g, args=None, pre=None):
             t2 = {'t': 'goto', 'to': cont, 'sp': sp} if cont is not None else {'t': 'unreachable', 'sp': sp}
         else:
             t2 = _rm_term(t, lo, bo, po)
+            if t2['t'] == 'call':
+                _instantiate_trait_call(t2, call, g)
         new_blocks.append({'s': stmts, 't': t2})
     # argument passing, then jump to the callee's entry
     entry = bo + len(new_blocks)
@@ -326,6 +328,31 @@ def _splice(raw, bi, g, args=None, pre=None):
     new_blocks.append({'s': argst, 't': {'t': 'goto', 'to': bo, 'sp': sp}})
     raw['blocks'] = raw['blocks'] + new_blocks
     raw['blocks'][bi] = {'s': raw['blocks'][bi]['s'], 't': {'t': 'goto', 'to': entry, 'sp': sp, 'inlined': g.path}}
+
+
+def _instantiate_trait_call(t2, call, g):
+    """a generic helper spliced into a caller: `<T as Trait>::method` inside it is resolved for the type the call site gives T
+    (the helper's type parameters are named in g.raw['generics'] in the order of the call's substitution list)"""
+    fr = t2.get('f')
+    if not isinstance(fr, dict) or fr.get('res') or not fr.get('trait') or not fr.get('a'):
+        return
+    crate = g.crate
+    gens = g.raw.get('generics') or []
+    subst = (call.get('f') or {}).get('ra') or (call.get('f') or {}).get('a') or []
+    st = crate.ty(fr['a'][0])
+    if st.get('k') != 'param' or st.get('n') not in gens:
+        return
+    k = gens.index(st['n'])
+    if k >= len(subst):
+        return
+    conc = subst[k]
+    mname = fr['def'].rsplit('::', 1)[-1]
+    for im in crate.impls:
+        if im.get('trait') == fr['trait'] and im.get('self') == conc:
+            for it in im['items']:
+                if it.endswith('::' + mname):
+                    t2['f'] = dict(fr, res=it, rk='item', rl=True, rc='yarel', ra=[conc], a=[conc], instantiated=True)
+                    return
 
 
 _CLOSURE_CALLS = ('std::ops::FnOnce::call_once', 'std::ops::FnMut::call_mut', 'std::ops::Fn::call')
@@ -999,6 +1026,11 @@ MAXPATH = 24
 ENUM_AGG_TOKENS = {'std::result::Result', 'std::option::Option', 'std::ops::ControlFlow'}
 
 
+CONTAINER_WRITES = {'std::vec::Vec::push', 'std::vec::Vec::insert', 'std::collections::VecDeque::push_back', 'std::collections::VecDeque::push_front'}
+CONTAINER_READS = {'std::ops::Index::index', 'std::ops::IndexMut::index_mut', 'std::vec::Vec::pop', 'std::vec::Vec::remove', 'core::slice::<impl [T]>::get',
+                   'core::slice::<impl [T]>::first', 'core::slice::<impl [T]>::last', 'std::collections::VecDeque::pop_front', 'std::collections::VecDeque::pop_back'}
+
+
 def origins(fn, through_calls='wrappers', extra_wrappers=()):
     """flow-insensitive may-origin analysis.
 
@@ -1067,6 +1099,26 @@ def origins(fn, through_calls='wrappers', extra_wrappers=()):
             return {(('const', k.get('s', '?')),)}
         return set()
 
+    # flow through a *local* collection (a Vec built and read inside this function): what is pushed comes back out of an element read
+    ref_of = {}
+    multi = set()
+    for b in fn.blocks:
+        for s in b['s']:
+            d = s.get('d')
+            if d and not d.get('p') and s['r'].get('rv') == 'ref' and not s['r']['p'].get('p'):
+                if d['l'] in ref_of and ref_of[d['l']] != s['r']['p']['l']:
+                    multi.add(d['l'])
+                ref_of[d['l']] = s['r']['p']['l']
+    for l in multi:
+        ref_of.pop(l, None)
+    elems = defaultdict(set)
+
+    def container_of(o):
+        pl = op_place(o)
+        if pl is None or pl.get('p'):
+            return None
+        return ref_of.get(pl['l'])
+
     changed = True
     rounds = 0
     while changed and rounds < 50:
@@ -1126,6 +1178,18 @@ def origins(fn, through_calls='wrappers', extra_wrappers=()):
                             new |= operand_paths(a)
                 if not wrap:
                     new.add((('call', bi, name or '<indirect>'),))
+                sn = strip_generics(name or '')
+                if sn in CONTAINER_WRITES and len(t['args']) >= 2:
+                    cv = container_of(t['args'][0])
+                    if cv is not None:
+                        add = {(q + ('[]',))[:MAXPATH] for q in operand_paths(t['args'][-1])}
+                        if not add <= elems[cv]:
+                            elems[cv] |= add
+                            changed = True
+                elif (sn in CONTAINER_READS or (sn.endswith(('::index', '::index_mut')) and 'ops::Index' in sn)) and t['args']:
+                    cv = container_of(t['args'][0])
+                    if cv is not None and elems[cv]:
+                        new |= elems[cv]
                 if not new <= org[d]:
                     org[d] |= new
                     changed = True
